@@ -184,7 +184,59 @@ def init_args_of(mode, inputs, pid):
     raise ValueError(mode)
 
 
+_UNSAVABLE = {}
+
+
+def unsavable_probe(kind):
+    """Implementation-only probe (no model term), once per persister kind: launch / create with persist=True of a process whose
+    checkpoint cannot be written must be refused with that error — nothing runs, nothing is stored."""
+    if kind in _UNSAVABLE or kind == 'none':
+        return _UNSAVABLE.get(kind)
+    import plumpy
+    from plumpy import process_comms as pc
+    import c17_procs as P
+    lp = loop()
+    d = None
+    out = []
+    try:
+        if kind == 'mem':
+            pers = plumpy.InMemoryPersister()
+        else:
+            os.makedirs(coqio.BUILD, exist_ok=True)
+            d = tempfile.mkdtemp(prefix='c17u_', dir=coqio.BUILD)
+            pers = plumpy.PicklePersister(d)
+        launcher = plumpy.ProcessLauncher(loop=lp, persister=pers)
+        bodies = [('launch', pc.create_launch_body(P.Unsavable, persist=True, nowait=False)),
+                  ('launch-nowait', pc.create_launch_body(P.Unsavable, persist=True, nowait=True)),
+                  ('create', pc.create_create_body(P.Unsavable, persist=True))]
+        for name, body in bodies:
+            P.EVENTS.clear()
+
+            async def call():
+                try:
+                    return ['ok', repr(await launcher(None, body))[:60]]
+                except BaseException as e:  # noqa: BLE001
+                    return ['exn', coqio.canon_exception(e)]
+            reply = lp.run_until_complete(call())
+            for _ in range(50):
+                lp.run_until_complete(asyncio.sleep(0))
+            out.append([name, reply, sum(1 for e in P.EVENTS if e[0] == 'step'), len(pers.get_checkpoints())])
+    except Exception as e:  # noqa: BLE001
+        out.append(['probe-error', repr(e)[:200], 0, 0])
+    finally:
+        if d:
+            shutil.rmtree(d, ignore_errors=True)
+    _UNSAVABLE[kind] = out
+    return out
+
+
 def run_impl(case):
+    obs = _run_impl(case)
+    obs['unsavable'] = unsavable_probe(case['persister'])
+    return obs
+
+
+def _run_impl(case):
     warnings.simplefilter('ignore')
     logging.disable(logging.CRITICAL)
     import plumpy
@@ -442,6 +494,11 @@ def fail(sig, n, item, **kw):
 
 def oracle(case, obs):
     """The statement of C17 on the observed behaviour, independently of the Coq model."""
+    for name, reply, steps, stored in (obs.get('unsavable') or []):
+        if name == 'probe-error':
+            return {'signature': 'unsavable_probe_failed', 'kind': str(reply)}
+        if reply[0] != 'exn' or steps != 0 or stored != 0:
+            return {'signature': 'unpersistable_process_not_refused', 'kind': name, 'reply': reply, 'steps_run': steps, 'stored': stored}
     tables = _expected_loader_tables()
     has_p = case['persister'] != 'none'
     ltab = tables[case.get('loader')]
